@@ -12,7 +12,7 @@ from cardutil import pinblock, key as keymod
 LEVEL = 'exploration'
 EXHAUSTIVE = False
 TECHNIQUE = 'Hypothesis over (PIN, PAN, key index, key) and component lists against from-scratch DES/3DES (FIPS known-answer checked); inputs for every second-decimalisation-scan class are constructed by decrypting shaped ciphertext blocks'
-RULE = ('PIN 4..12 digits, PAN 13..19 digits, key index 0..9, DES/3DES keys of 8, 16, 24 bytes from Hypothesis. Cases where the first '
+RULE = ('PIN 4..12 digits, PAN 13..19 digits, key index 0..9, DES/3DES keys of 8, 16, 24 bytes from Hypothesis (hex in either case; also the DES weak / semi-weak keys and component lists whose XOR lands on one). Cases where the first '
         'decimalisation scan yields 0, 1, 2, 3 or >= 4 digits are constructed: ciphertext blocks with the wanted number of decimal '
         'nibbles are decrypted under the drawn key and kept when the plaintext is 16 decimal digits, from which PAN digits, index and '
         'PIN are read (search accelerated with the cryptography package; every hit re-derived with the reference cipher, which alone '
@@ -24,6 +24,14 @@ ASSUMPTIONS = ['reference DES/3DES in vlib/refcrypto.py, checked against FIPS kn
                'key components are double-length (32 hex digits); hex case is not significant in results']
 
 DEC = '0123456789'
+# key values with a reputation: the DES weak and semi-weak keys (odd parity), all-zero / all-one halves. The published
+# algorithms are defined for them like for any other key; a combined key may land on one of them.
+SPECIAL_HALVES = ['0101010101010101', 'fefefefefefefefe', 'e0e0e0e0f1f1f1f1', '1f1f1f1f0e0e0e0e',
+                  '011f011f010e010e', '1f011f010e010e01', '01e001e001f101f1', 'e001e001f101f101', '01fe01fe01fe01fe', 'fe01fe01fe01fe01',
+                  '1fe01fe00ef10ef1', 'e01fe01ff10ef10e', '1ffe1ffe0efe0efe', 'fe1ffe1ffe0efe0e', 'e0fee0fef1fef1fe', 'fee0fee0fef1fef1',
+                  '0000000000000000', 'ffffffffffffffff']
+
+
 
 
 def ref_pvv(pin, key_hex, index, pan):
@@ -173,8 +181,10 @@ def second_scan(ctx, per_class, nkeys):
 def hyp_pvv(ctx, n):
     refcrypto.selftest()
     digits = lambda lo, hi: uniform(lo, hi).flatmap(lambda k: st.text(alphabet=DEC, min_size=k, max_size=k))
-    keys = st.sampled_from([8, 16, 24]).flatmap(lambda k: st.binary(min_size=k, max_size=k)).flatmap(
-        lambda b: st.sampled_from([b.hex(), b.hex(), b.hex().upper()]))
+    keys = st.one_of(st.sampled_from([8, 16, 24]).flatmap(lambda k: st.binary(min_size=k, max_size=k)).flatmap(
+        lambda b: st.sampled_from([b.hex(), b.hex(), b.hex().upper()])),
+        st.sampled_from([8, 16, 24]).flatmap(lambda k: st.binary(min_size=k, max_size=k)).map(bytes.hex),
+        st.lists(st.sampled_from(SPECIAL_HALVES), min_size=1, max_size=3).map(''.join))
 
     def body(v):
         pin, pan, index, key_hex = v
@@ -190,17 +200,48 @@ def hyp_pvv(ctx, n):
     harness.drive(ctx, st.tuples(digits(4, 12), digits(13, 19), uniform(0, 9), keys), body, n, salt='pvv')
 
 
+@st.composite
+def parts_with_special_xor(draw):
+    """component lists whose XOR has a special half (or two, or equal halves)"""
+    half = st.sampled_from(SPECIAL_HALVES)
+    other = st.binary(min_size=8, max_size=8).map(bytes.hex)
+    shape = draw(st.sampled_from(['left', 'right', 'both', 'equal-halves']))
+    if shape == 'left':
+        target = draw(half) + draw(other)
+    elif shape == 'right':
+        target = draw(other) + draw(half)
+    elif shape == 'both':
+        target = draw(half) + draw(half)
+    else:
+        target = draw(other) * 2
+    rest = draw(st.lists(st.binary(min_size=16, max_size=16).map(bytes.hex), min_size=1, max_size=3))
+    last = int(target, 16)
+    for r in rest:
+        last ^= int(r, 16)
+    parts = rest + ['%032x' % last]
+    parts = list(draw(st.permutations(parts)))
+    if draw(st.booleans()):
+        parts = [x.upper() for x in parts]
+    return parts
+
+
 def hyp_keys(ctx, n):
     refcrypto.selftest()
     part = st.binary(min_size=16, max_size=16).flatmap(lambda b: st.sampled_from([b.hex(), b.hex().upper()]))
-    parts = st.lists(st.one_of(part, st.sampled_from(['00' * 16, 'ff' * 16, '6D6BE51F04F76167491554FE25F7ABEF'])), min_size=1, max_size=5)
-    master = st.one_of(st.sampled_from(['00' * 16, '0123456789abcdeffedcba9876543210']),
+    parts = st.one_of(st.lists(st.one_of(part, st.sampled_from(['00' * 16, 'ff' * 16, '6D6BE51F04F76167491554FE25F7ABEF'])), min_size=1, max_size=5),
+                      st.lists(st.one_of(part, st.sampled_from(['00' * 16, 'ff' * 16, '6D6BE51F04F76167491554FE25F7ABEF'])), min_size=1, max_size=5),
+                      parts_with_special_xor())
+    special_key = st.lists(st.sampled_from(SPECIAL_HALVES), min_size=1, max_size=3).map(''.join)
+    master = st.one_of(st.sampled_from(['00' * 16, '0123456789abcdeffedcba9876543210']), special_key.filter(lambda k: len(k) >= 32),
                        st.sampled_from([16, 24]).flatmap(lambda k: st.binary(min_size=k, max_size=k)).flatmap(
                            lambda b: st.sampled_from([b.hex(), b.hex().upper()])))
 
     def body(v):
         ps, mk, kb, kl = v
-        ctx.case(key=harness.digest(('k', ps, mk, kb, kl)), nontrivial=len(ps) >= 2, labels=['keys-hyp', f'parts={len(ps)}', f'kcvlen={kl}'])
+        x = '%032x' % xor_parts(ps)
+        special = x[:16] in SPECIAL_HALVES or x[16:] in SPECIAL_HALVES or x[:16] == x[16:]
+        ctx.case(key=harness.digest(('k', ps, mk, kb, kl)), nontrivial=len(ps) >= 2,
+                 labels=['keys-hyp', f'parts={len(ps)}', f'kcvlen={kl}', 'combined-key-special' if special else 'combined-key-ordinary'])
         if len(ctx.samples) < 5:
             ctx.sample({'components': ps, 'master_key_bytes': len(mk) // 2, 'kcv_of': kb.hex(), 'kcv_length': kl})
         res = check_combine(ps, mk)
@@ -209,8 +250,10 @@ def hyp_keys(ctx, n):
         res = check_kcv(kb, kl)
         if res:
             ctx.fail(res[0], {'kind': 'kcv', 'key': kb, 'n': kl}, res[1])
-    harness.drive(ctx, st.tuples(parts, master, st.sampled_from([8, 16, 24]).flatmap(lambda k: st.binary(min_size=k, max_size=k)),
+    harness.drive(ctx, st.tuples(parts, master, st.one_of(st.sampled_from([8, 16, 24]).flatmap(lambda k: st.binary(min_size=k, max_size=k)),
+                                                          special_key.map(bytes.fromhex)),
                                  st.one_of(st.just(6), uniform(1, 16))), body, n, salt='keys')
+    ctx.floor('combined-key-special', 0.15, 'keys-hyp')
 
 
 def tasks(tier, seed):
